@@ -46,6 +46,7 @@ type node struct {
 	src   []*node
 	idx   int // child index
 	items []pitem
+	arr   []string // array sources: the slice handed to the library
 	cap   int
 	cmode int
 	cmod  int
@@ -54,10 +55,10 @@ type node struct {
 	rd    *schema.StreamReader[string]
 	wr    *schema.StreamWriter[string]
 	// leaf behaviour
-	leaf    bool
-	want    int // -1: read to EOF
-	claims  []claim
-	nchild  int
+	leaf   bool
+	want   int // -1: read to EOF
+	claims []claim
+	nchild int
 }
 
 type pitem struct {
@@ -83,11 +84,12 @@ type sendRec struct {
 }
 
 type run struct {
-	s     *kernel.Sim
-	t     *kernel.Tape
-	o     *core.Outcome
-	nodes []*node
-	open  []*node
+	s      *kernel.Sim
+	t      *kernel.Tape
+	o      *core.Outcome
+	nodes  []*node
+	open   []*node
+	carved bool
 	// observations
 	sends     map[int][]sendRec
 	prodClose map[int]bool
@@ -378,6 +380,37 @@ func itemName(chunk string, err error) string {
 
 var hexRe = regexp.MustCompile(`0x[0-9a-fA-F]+`)
 
+// carve lays out the array sources the way callers hand them to the library: most of them
+// are adjacent sub-slices of one batch (their spare capacity overlaps the neighbour's items),
+// the others exact slices.
+func (r *run) carve() {
+	r.carved = true
+	total := 0
+	for _, x := range r.nodes {
+		if x.kind == kArray {
+			total += len(x.items)
+		}
+	}
+	batch := make([]string, 0, total+2)
+	for _, x := range r.nodes {
+		if x.kind != kArray {
+			continue
+		}
+		if x.id%3 != 0 {
+			off := len(batch)
+			for _, it := range x.items {
+				batch = append(batch, it.name)
+			}
+			x.arr = batch[off:len(batch)]
+		} else {
+			x.arr = make([]string, 0, len(x.items))
+			for _, it := range x.items {
+				x.arr = append(x.arr, it.name)
+			}
+		}
+	}
+}
+
 func (r *run) build(n *node) *schema.StreamReader[string] {
 	if n.rd != nil {
 		return n.rd
@@ -386,10 +419,10 @@ func (r *run) build(n *node) *schema.StreamReader[string] {
 	case kPipe:
 		n.rd, n.wr = schema.Pipe[string](n.cap)
 	case kArray:
-		var arr []string
-		for _, it := range n.items {
-			arr = append(arr, it.name)
+		if !r.carved {
+			r.carve()
 		}
+		arr := n.arr
 		n.rd = schema.StreamReaderFromArray(arr)
 	case kConv:
 		src := r.build(n.src[0])
@@ -804,10 +837,10 @@ func (n *node) untag(y string) (string, bool) {
 
 func init() {
 	core.Register(&core.Profile{
-		ID: "C08", Engine: "streamsim", Run: RunOnce, Quick: 6000, Thorough: 150000, ThoroughSeeds: 3,
-		Rule: "each run draws an operator tree (1-3+ sources: Pipe cap 0-3 or array, up to 6 copy/convert/merge operations incl. the >5-source reflect.Select path and converts that skip, fail or panic inside a forwarder), producer tasks and one consumer task per leaf (reads k items or to EOF, then closes), and one schedule; a run is non-trivial when >=2 tasks were live and >=1 step had >=2 candidates; distinct = distinct (plan hash, schedule signature)",
-		Real: []string{"schema/stream.go", "schema/select.go (blocking and single-ready cases)", "Go runtime channels, sync.Once, atomics"},
-		Stub: []string{"producers and consumers (harness tasks)", "convert functions", "multi-ready select choice (ready-poll seam)"},
+		RaceQuick: 200, RaceThorough: 3000, ID: "C08", Engine: "streamsim", Run: RunOnce, Quick: 6000, Thorough: 150000, ThoroughSeeds: 3,
+		Rule:   "each run draws an operator tree (1-3+ sources: Pipe cap 0-3 or array, up to 6 copy/convert/merge operations incl. the >5-source reflect.Select path and converts that skip, fail or panic inside a forwarder), producer tasks and one consumer task per leaf (reads k items or to EOF, then closes), and one schedule; a run is non-trivial when >=2 tasks were live and >=1 step had >=2 candidates; distinct = distinct (plan hash, schedule signature)",
+		Real:   []string{"schema/stream.go", "schema/select.go (blocking and single-ready cases)", "Go runtime channels, sync.Once, atomics"},
+		Stub:   []string{"producers and consumers (harness tasks)", "convert functions", "multi-ready select choice (ready-poll seam)"},
 		Faults: []string{"early reader close", "error items", "convert error", "convert panic in forwarder", "stubborn producer", "schedule perturbation"},
 	})
 	sort.Strings(nil)
